@@ -21,6 +21,9 @@ def run(repo, rep):
     rep.clause("C12-e", "variable tensors stay live from time 0 to the end of the inference; subgraph outputs are never moved to fast storage (the None consumer marker is looked for in the whole consumer list)")
     rep.clause("C12-f", "the ethos-u custom operator gets its fixed operands in the driver's positional order: command stream, flash (weights), scratch (arena), fast scratch, then the IFMs")
     rep.undecided("that arena tensors do not overlap while live under the output operator order; that the scratch tensor spans every touched byte (concrete addresses)")
+    from .shared import duplicate_branch_lint
+
+    duplicate_branch_lint(repo, rep, "C12-a", ['tensor_allocation', 'live_range', 'npu_serialisation', 'tflite_writer', 'stats_writer'])
     from .shared import mirror_families
 
     mirror_families(repo, rep, "C12-b", {('scheduler', '', 'options'): 'allocator options handed to allocate_tensors'})
